@@ -356,6 +356,9 @@ def parse_sequence(element: ElementTree.Element, config: Config, parsed_attribut
     root = NoOpDecision(str(path), True)
     for subpath, i in path.enumerate(element):
         root.add_transition(parse_xml_element(i, config, subpath))
+    # An empty sequence is complete as it is
+    if not root.outgoing_transitions:
+        root.add_transition(NoOpLeaf(None, True))
     return root
 
 
@@ -427,6 +430,10 @@ def parse_type(element: ElementTree.Element, config: Config, parsed_attributes: 
     for subpath, child in path.enumerate(element):
         child_node = parse_xml_element(child, config, subpath)
         root.add_transition(child_node)
+
+    # An empty type is complete as it is
+    if not root.outgoing_transitions:
+        root.add_transition(NoOpLeaf(None, True))
 
     return root
 
